@@ -206,6 +206,8 @@ def fault_cases(ctx, index):
             cut = [r + delim for r in records]
             # (the last record is cut together with its delimiter, otherwise the delimiter just fills the gap)
             cut[k] = records[k][:-1] + (delim if k < len(records) - 1 else "")
+            if cut[k] == "":
+                continue  # a one-character last record cut away leaves a well-formed file
             fault = {"kind": "short-record", "row": k + 1, "prefix_rows": max(0, k - model.header)}
             check_fault_text(ctx, model, store, "".join(cut), table[:k], fault)
             # (2) delimiter of record k replaced by a letter
